@@ -799,9 +799,12 @@ class Table(Vector):
 					f"source table has {len(value.cols())} cols."
 				)
 			
-			# We delegate row-length validation to the vector.__setitem__ calls below
+			# We delegate row-length validation to the vector.__setitem__ calls below.
+			# The source may be this very table (t[:, ['b', 'a']] = t): read all of it
+			# before the first target column is rewritten
+			sources = [col.copy() for col in value.cols()]
 			for i, col_idx in enumerate(target_indices):
-				self._underlying[col_idx][row_spec] = value.cols()[i]
+				self._underlying[col_idx][row_spec] = sources[i]
 			return
 
 		# CASE D: Raw 2D Iterable Assignment (List of Columns? List of Rows?)
@@ -822,9 +825,11 @@ class Table(Vector):
 			if len(value) != len(target_indices):
 				raise SerifValueError(f"Shape mismatch: expected {len(target_indices)} columns/items.")
 			
-			# Assume value[i] corresponds to target_indices[i]
+			# Assume value[i] corresponds to target_indices[i] (a source that is one of
+			# this table's own columns is read before any target column is rewritten)
+			sources = [v.copy() if isinstance(v, Vector) else v for v in value]
 			for i, col_idx in enumerate(target_indices):
-				self._underlying[col_idx][row_spec] = value[i]
+				self._underlying[col_idx][row_spec] = sources[i]
 			return
 
 		raise SerifTypeError(f"Unsupported assignment value type: {type(value)}")
